@@ -196,7 +196,7 @@ where
     };
     match guard(|| v.validate()) {
         Err(p) => {
-            ctx.judge_panic(&p, &format!("validate of {}", name), detail(json!({})), None);
+            crate::report_panic(ctx, &p, "validate", &format!("validate of {}", name), detail(json!({})), None);
             return;
         }
         Ok(Err(_)) => {
@@ -207,7 +207,7 @@ where
     }
     let bytes = match guard(|| dump_table(v)) {
         Err(p) => {
-            ctx.judge_panic(&p, &format!("dump of a validated {}", name), detail(json!({})), None);
+            crate::report_panic(ctx, &p, "dump", &format!("dump of a validated {}", name), detail(json!({})), None);
             return;
         }
         Ok(Err(_)) => {
@@ -228,7 +228,7 @@ where
     ctx.label("types_round_tripped", name);
     let v2 = match guard(|| T::read(FontData::new(&bytes))) {
         Err(p) => {
-            ctx.judge_panic(&p, &format!("read of a compiled {}", name), detail(json!({})), Some(&bytes));
+            crate::report_panic(ctx, &p, "read", &format!("read of a compiled {}", name), detail(json!({})), Some(&bytes));
             return;
         }
         Ok(Err(e)) => {
@@ -250,7 +250,7 @@ where
         Ok(_) => {
             ctx.violation(&format!("redump-mismatch:{}:-:{}", name, mutation_class(mutation)), detail(json!({})), Some(&bytes));
         }
-        Err(p) => ctx.judge_panic(&p, &format!("redump of {}", name), detail(json!({})), Some(&bytes)),
+        Err(p) => crate::report_panic(ctx, &p, "redump", &format!("redump of {}", name), detail(json!({})), Some(&bytes)),
     }
 }
 
@@ -506,7 +506,7 @@ fn loca_workload(ctx: &mut Ctx, loca: &read_fonts::tables::loca::Loca, origin: &
             Ok(Ok(b)) => b,
             Ok(Err(_)) => continue,
             Err(p) => {
-                ctx.judge_panic(&p, "dump of Loca", json!({"type": "Loca", "origin": origin, "mutation": what}), None);
+                crate::report_panic(ctx, &p, "dump", "dump of Loca", json!({"type": "Loca", "origin": origin, "mutation": what}), None);
                 continue;
             }
         };
@@ -521,7 +521,7 @@ fn loca_workload(ctx: &mut Ctx, loca: &read_fonts::tables::loca::Loca, origin: &
                 continue;
             }
             Err(p) => {
-                ctx.judge_panic(&p, "read of Loca", json!({"type": "Loca", "origin": origin, "mutation": what}), Some(&bytes));
+                crate::report_panic(ctx, &p, "read", "read of Loca", json!({"type": "Loca", "origin": origin, "mutation": what}), Some(&bytes));
                 continue;
             }
         };
@@ -646,7 +646,7 @@ fn gvar_case(ctx: &mut Ctx, rng: &mut Rng, idx: usize, big: bool) {
             return;
         }
         Err(p) => {
-            ctx.judge_panic(&p, "Gvar::new", describe(), None);
+            crate::report_panic(ctx, &p, "validate", "Gvar::new", describe(), None);
             return;
         }
     };
@@ -657,7 +657,7 @@ fn gvar_case(ctx: &mut Ctx, rng: &mut Rng, idx: usize, big: bool) {
             return;
         }
         Err(p) => {
-            ctx.judge_panic(&p, "dump of Gvar", describe(), None);
+            crate::report_panic(ctx, &p, "dump", "dump of Gvar", describe(), None);
             return;
         }
     };
@@ -731,7 +731,7 @@ fn gvar_case(ctx: &mut Ctx, rng: &mut Rng, idx: usize, big: bool) {
         Ok(Err(what)) => {
             ctx.violation(&format!("gvar-mismatch:{}", what), describe(), Some(&bytes));
         }
-        Err(p) => ctx.judge_panic(&p, "read-back of a compiled Gvar", describe(), Some(&bytes)),
+        Err(p) => crate::report_panic(ctx, &p, "read", "read-back of a compiled Gvar", describe(), Some(&bytes)),
     }
 }
 
